@@ -1,7 +1,9 @@
 import LsLemmas.DupSort
+import LsLemmas.TxnMirrorDup
 /-
   C20 — The dupsort hack maps duplicate-key data reversibly or refuses it.
-  (The mirror-cycle part `C20_cycle` lives with the transaction model: LsProps/C11.lean.)
+  The mirror-cycle part `C20_cycle` (at the end) is about the transaction model LsModel/Txn.lean;
+  its helper lemmas are in LsLemmas/TxnMirrorDup.lean.
 -/
 namespace Ls.C20
 open Ls Ls.Merge Ls.DupSort
@@ -108,5 +110,67 @@ example : ∃ r, encodeAll
     [{ key := [1], val := [2], ts := 0, flags := 0 },
      { key := [1], val := [3], ts := 0, flags := 0 }] = .ok r ∧ r.length = 2 :=
   ⟨_, rfl, rfl⟩
+
+/-! ## the mirror cycle on a duplicate-keys DBI -/
+
+open Ls.Lmdb Ls.Strategy Ls.Txn in
+/-- **Mirror cycle.** Shadow mode with the dupsort hack. `d` is a duplicate-keys application DBI
+    named `n` (not an integer-key DBI) whose content is a strictly increasing list of (key, value)
+    pairs (`PairSorted`) with non-empty values; its shadow `shadowOf w n d` (the existing one, or a
+    new empty one) is a byte-wise ordered DBI, sorted, with valid keys and well-formed values
+    (header parses, deleted ⇒ no value), and `now` is above every timestamp stored in it (shared
+    clock). If `mainToShadow` and then `shadowToMain` succeed (in particular the content was accepted
+    by `DupSort.encodeAll`) with no remote change merged in between, the application DBI is
+    afterwards EXACTLY what it was: the same set of pairs — name, flags and content. Moreover what
+    the projection computed — `EmptyPut … true plainIter` of `decodeAll` of the shadow entries —
+    is that content, which is the invariant `DupMirrorOK` that `C10_dupsort_rewrites_same_content`
+    assumes. Other DBIs: `C11_capture_frame`, `C11_project`.
+    Restriction (finding D7, known): values are non-empty — a zero-length duplicate is dropped by
+    the projection like a zero-length value of an ordinary DBI (`C11_empty_value_witness`). -/
+theorem C20_cycle (c : Txn.Cfg) (w w1 w2 : W) (txnID now cutoff : Nat) (n : Bytes) (d : Dbi)
+    (hdist : DistinctNames w.dbis) (hh : c.hack = true)
+    (h1 : mainToShadow c w txnID now cutoff = .ok w1) (h2 : shadowToMain c w1 = .ok w2)
+    (hp : isPrivate n = false) (hd : findDbi w.dbis n = some d)
+    (hdup : isDupSort d.flags = true) (hik : isIntKey d.flags = false)
+    (hiks : isIntKey (shadowOf w n d).flags = false)
+    (hps : PairSorted d.kvs) (hne : ∀ p ∈ d.kvs, p.2 ≠ [])
+    (hS : Sorted false (shadowOf w n d).kvs) (hSK : DKeysOK (shadowOf w n d).kvs)
+    (hwf : ∀ p ∈ (shadowOf w n d).kvs, ValWF p.2)
+    (hclock : ∀ p ∈ (shadowOf w n d).kvs, ∀ hd v, Header.parse p.2 = .ok (hd, v) → hd.ts < now)
+    (hn : now < two64) (ht : txnID < two64) :
+    findDbi w2.dbis n = some d ∧
+    (∃ enc, encodeAll (rawEntries d.kvs) = .ok enc) ∧
+    DupMirrorOK w2.dbis d := by
+  obtain ⟨a, b, sd, es, dec, h3, h4, h5, h6⟩ :=
+    dup_cycle_env hdist hh h1 h2 hp hd hdup hik hiks hps hne hS hSK hwf hclock hn ht
+  refine ⟨a, b, sd, es, dec, ?_, h4, h5, h6⟩
+  rw [findDbi_name hd]; exact h3
+
+open Ls.Lmdb Ls.Strategy Ls.Txn in
+/-- a missing shadow of a non-integer-key duplicate-keys DBI is created as an ordinary byte-wise
+    DBI (neither MDB_DUPSORT nor MDB_INTEGERKEY), empty: the hypotheses of `C20_cycle` about the
+    shadow then hold trivially -/
+theorem C20_cycle_new_shadow (w : W) (n : Bytes) (d : Dbi) (hik : isIntKey d.flags = false)
+    (hs : findDbi w.dbis (shadowName n) = none) :
+    isIntKey (shadowOf w n d).flags = false ∧ isDupSort (shadowOf w n d).flags = false ∧
+    (shadowOf w n d).kvs = [] := by
+  unfold shadowOf; rw [hs]
+  exact ⟨by rw [← hik]; exact isIntKey_mask d.flags, isDupSort_mask d.flags, rfl⟩
+
+/-- a duplicate-keys DBI "d" with two values under key 01 and one under key 02 -/
+def exDupW : Txn.W :=
+  { dbis := [{ name := [0x64], flags := 4, kvs := [([1], [0x0a]), ([1], [0x0b]), ([2], [0x0a])] }],
+    dirty := false }
+
+def exHack : Txn.Cfg := { native := false, hack := true, pad := false, receiveOnly := false, override := [] }
+
+/-- non-vacuity: the cycle succeeds on the instance and gives back the same pairs; the shadow holds
+    three distinct encoded keys -/
+example :
+    ((Txn.mainToShadow exHack exDupW 1 100 0).bind (Txn.shadowToMain exHack)).map
+      (fun w => ((Txn.findDbi w.dbis [0x64]).map (·.kvs),
+                 (Txn.findDbi w.dbis (Txn.shadowName [0x64])).map (·.kvs.length)))
+      = .ok (some [([1], [0x0a]), ([1], [0x0b]), ([2], [0x0a])], some 3) := by
+  decide +kernel
 
 end Ls.C20
